@@ -299,10 +299,12 @@ theorem mkOpt_erase (ci : CfgInfo) : ∀ d : Decl, eraseOpt (mkOpt (eraseInfo ci
     · split
       · rfl
       · split
-        · simp only [sectionInfo_erase, eraseOpt, eraseVals, eraseVal, eraseCfg, eraseInfo_idem]
-          have := mkOpts_erase (sectionInfo ci info.name flags none) subs
-          simp only [this]
         · rfl
+        · split
+          · simp only [sectionInfo_erase, eraseOpt, eraseVals, eraseVal, eraseCfg, eraseInfo_idem]
+            have := mkOpts_erase (sectionInfo ci info.name flags none) subs
+            simp only [this]
+          · rfl
 theorem mkOpts_erase (ci : CfgInfo) : ∀ ds : List Decl, eraseOpts (mkOpts (eraseInfo ci) ds) = eraseOpts (mkOpts ci ds)
   | [] => rfl
   | d :: ds => by simp only [mkOpts, eraseOpts, mkOpt_erase ci d, mkOpts_erase ci ds]
